@@ -70,34 +70,64 @@ def build(desc):
 
 
 class Stub:
-    """An object whose listed methods return fixed functions of their keyword
-    arguments (abstract callee on the native side)."""
+    """An object whose listed getters are pure functions of their keyword
+    arguments (abstract callee on the native side): a table entry from the
+    solver model if one matches, else base + sum coef_k * numeric(kwarg_k)."""
 
     def __init__(self, desc):
         self._desc = desc
         for k, d in desc.get('attrs', {}).items():
             setattr(self, k, build(d))
         self.calls = []
+        self._table = {}
+        for (m, kw, val) in desc.get('table', []):
+            self._table[(m, _tkey(kw))] = val
         for m, spec in desc.get('methods', {}).items():
             setattr(self, m, self._mk(m, spec))
 
+    def __deepcopy__(self, memo):
+        return self
+
     def _mk(self, m, spec):
-        def f(*a, **kw):
-            self.calls.append((m, a, dict(kw)))
-            val = spec.get('base', 0.0)
+        def f(**kw):
+            self.calls.append((m, dict(kw)))
+            key = (m, _tkey(kw))
+            if key in self._table:
+                return self._table[key]
+            val = spec.get('base', 1.0)
             for k, c in spec.get('coef', {}).items():
-                v = kw.get(k, spec.get('defaults', {}).get(k, 0.0))
-                if isinstance(v, bool):
-                    v = 1.0 if v else 0.0
-                if isinstance(v, (int, float)):
-                    val = val + c * v
-                elif isinstance(v, dict):
-                    val = val + c * sum(float(x) for x in v.values()
-                                        if isinstance(x, (int, float)))
-                elif v is not None:
-                    val = val + c * (hash(str(v)) % 97)
+                if k not in kw:
+                    continue
+                val = val + c * _numeric(kw[k])
+            for k in kw:
+                if k not in spec.get('coef', {}):
+                    val = val + 0.05 * _numeric(kw[k])
             return val
         return f
+
+
+def _numeric(v):
+    if isinstance(v, bool):
+        return 1.0 if v else 0.0
+    if isinstance(v, (int, float)):
+        return math.log1p(abs(float(v))) * (1 if v >= 0 else -1)
+    if v is None:
+        return 0.0
+    if isinstance(v, dict):
+        return sum(_numeric(x) for x in v.values()) + 0.01 * len(v)
+    if isinstance(v, (list, tuple)):
+        return sum(_numeric(x) for x in v)
+    return (sum(ord(ch) for ch in str(v)) % 97) / 97.0
+
+
+def _tkey(kw):
+    out = []
+    for k in sorted(kw):
+        v = kw[k]
+        if isinstance(v, float):
+            v = round(v, 9)
+        out.append((k, repr(v)))
+    return tuple(out)
 
 
 def _const(v):
@@ -275,7 +305,8 @@ def clause_env(spec_root):
     import spec
     import pmutt.constants as const
     from scipy.integrate import quad as _quad
-    env = {'spec': spec, 'const': const,
+    import pmutt as pm
+    env = {'spec': spec, 'const': const, 'pm': pm,
            'integral': lambda f, a, b: _quad(f, a, b)[0], 'np': np, 'log': np.log, 'exp': np.exp,
            'sqrt': np.sqrt, 'pi': math.pi,
            'implies': lambda a, b: (not a) or b, 'eq': approx_eq,
